@@ -21,10 +21,10 @@ CPDEFS = {"c": lambda n: [(True, "App\\" + n)], "i": lambda n: [(False, "App\\" 
           "x": lambda n: [(True, "App\\" + n + "Other")],
           "ci": lambda n: [(True, "App\\" + n), (False, "App\\" + n + "I")]}
 # registration pool (8 names, deliberate collisions: case variants, class/interface/function sharing names)
-REG = ["A", "a", "B", "f", "App\\P", "App\\Q", "App\\R", "App\\S"]
-SIMPLE = ["A", "a", "B", "f"]          # names a declaration can be parsed under
+REG = ["A", "a", "Ab", "aB", "f", "App\\P", "App\\Q", "App\\R", "App\\S"]
+SIMPLE = ["A", "a", "Ab", "aB", "f"]          # names a declaration can be parsed under
 # lookup pool: the registration pool, backslash-prefixed and case variants, names declared by files
-LOOK = REG + ["\\A", "\\f", "App\\p", "\\App\\P", "App\\SI", "App\\ROther", ""]
+LOOK = REG + ["AB", "ab", "\\A", "\\f", "App\\p", "\\App\\P", "App\\SI", "App\\ROther", ""]   # AB/ab: a third spelling of two registered keys (minimum-key rule)
 CONSTS = ["K", "\\K", "L"]
 SMALL_LOOK = ["A", "a", "\\A", "App\\P", "App\\Q", "App\\p"]
 
@@ -175,7 +175,7 @@ def rand_case(rng, maxlen):
         if r < 0.64:
             # script level: class_exists / interface_exists / new on the VM's own context
             k = rng.choice(["cexists", "iexists", "new"])
-            pool = (["A", "a", "B", "App\\P", "App\\S", "App\\R"] if k != "iexists" else ["A", "a", "App\\Q", "App\\SI", "App\\P"])
+            pool = (["A", "a", "AB", "Ab", "App\\P", "App\\S", "App\\R"] if k != "iexists" else ["A", "a", "App\\Q", "App\\SI", "App\\P"])
             return {"op": k, "vm": v, "name": rng.choice(pool)}
         if r < 0.85:
             return {"op": rng.choice(["goc", "goc", "goi", "pkg"]), "vm": v,
